@@ -571,13 +571,13 @@ small_field!(k_evaluate_horner, 5, {
   assert!(model(&s.y[1]) == r1);
 });
 
-// interpolate = Lagrange at zero: three points with x in {3, 5, 6} (GF(7)) in a SYMBOLIC ORDER on a symbolic
+// interpolate = Lagrange at zero: three points with x in {1, 2, 3} (GF(7); not a coset of the cubes, so x_i^2 differs from the product of the other two) in a SYMBOLIC ORDER on a symbolic
 // polynomial of degree <= 2 return its constant term (encoded).  (Symbolic x makes the Lagrange
 // identity a nonlinear problem SAT does not finish; with concrete abscissae the weights are constants.)
 small_field!(k_interpolate_lagrange, 5, {
   let c = [any_small(), any_small(), any_small()];
   let cm = [model(&c[0]), model(&c[1]), model(&c[2])];
-  let mut xs = [3u32, 5, 6];
+  let mut xs = [1u32, 2, 3];
   let s01: bool = kani::any();
   let s12: bool = kani::any();
   let s02: bool = kani::any();
